@@ -25,7 +25,7 @@ pub struct PropPlan {
 }
 
 fn spec(prop: &'static str, ops: u64, mon: u32, max_len: usize) -> Spec {
-    Spec { prop, ops, mon, max_len, sinks: SINKS_C01, allow_forget: false, avoid: AVOID_NONE }
+    Spec { prop, ops, mon, max_len, sinks: SINKS_C01, allow_forget: false, fault_enum: false, allow_lies: false, extra_calls: 1, avoid: AVOID_NONE }
 }
 
 pub fn plan_for(prop: &str, tier: Tier) -> Option<PropPlan> {
@@ -71,6 +71,55 @@ pub fn plan_for(prop: &str, tier: Tier) -> Option<PropPlan> {
                 Plan { shape: Shape::History, groups: G_LAYOUT | G_BACKEND, random: Some((hc, ho)), spec: spec("C05", OPS_C01 | OPS_C02 | OPS_CAP | ops(&[OP_CLONE, OP_CLONE_EMPTY, OP_BULK_PUSH, OP_DROP_NEW]), MON_MEM, l) },
             ],
         }),
+        "C06" => {
+            let mut sp = spec("C06", OPS_C01 | OPS_C02 | ops(&[OP_CLEAR, OP_LAZY, OP_DROP_NEW]), MON_VALID | MON_MODEL | MON_OWN | MON_MEM, l.min(3));
+            sp.fault_enum = true;
+            sp.allow_lies = true;
+            let mut spc = sp.clone();
+            spc.ops = OPS_C01;
+            let mut sph = sp.clone();
+            sph.ops = OPS_C01 | OPS_C02 | ops(&[OP_CLEAR, OP_LAZY, OP_DROP_NEW, OP_CLONE]);
+            sph.max_len = l;
+            Some(PropPlan {
+                rule: "case = (state, operation instance of C01/C02/C08 incl. lazy-clone sources and splice replacement iterators); a fault-free run counts the N invocations of user code (element Drop, element Clone, replacement-iterator next) inside the operation, then N re-runs make the k-th invocation panic (k=1..N); separately replacement iterators whose len() is off by -2..=+2; oracle after the fault: no double drop, every visible element alive/intact/unique, guard zones intact, then the model is resynchronised from what is visible and a usability script (push, insert, remove, drain, clear, push, drop) runs under the ordinary Vec oracle; evaluations counts every execution; non-trivial = the injected fault fired inside the operation or the iterator lied; distinct = distinct (configuration, pick sequence)",
+                bound: format!("exhaustive for len<={} (every k up to 64) on tracked layouts x Multi/Heap/GuardMem backends; proptest {} histories x <= {} ops with random fault points", l.min(3), hc, ho),
+                plans: vec![
+                    Plan { shape: Shape::Step, groups: G_FAULT, random: None, spec: sp },
+                    Plan { shape: Shape::CloneThen, groups: G_FAULT, random: None, spec: spc },
+                    Plan { shape: Shape::History, groups: G_FAULT, random: Some((hc, ho)), spec: sph },
+                ],
+            })
+        }
+        "C07" => {
+            let mut sp = spec("C07", ops(&[OP_POP, OP_REMOVE, OP_SWAP_REMOVE, OP_DRAIN, OP_SPLICE]), MON_VALID | MON_OWN | MON_MODEL, l);
+            sp.allow_forget = true;
+            sp.sinks = &[Sink::Forget];
+            let mut sph = sp.clone();
+            sph.sinks = &[Sink::Forget, Sink::Drop, Sink::MovePush, Sink::Downcast];
+            sph.ops = OPS_C01 | OPS_C02;
+            Some(PropPlan {
+                rule: "case = (state, pop|remove|swap_remove whose handle is forgotten) | (drain|splice forgotten after every next/next_back prefix, or with a yielded item forgotten), followed by a usability script (push, insert, remove, drain, clear, push, drop) and, in histories, by arbitrary further operations; oracle: elements before the affected index unchanged, every visible element alive and unique, nothing destroyed twice, leaked elements only from at/after the index; non-trivial = something was forgotten; distinct = distinct (configuration, pick sequence)",
+                bound: format!("exhaustive one-step for len<={} on tracked layouts; proptest {} histories x <= {} ops", l, hc, ho),
+                plans: vec![
+                    Plan { shape: Shape::Step, groups: G_FAULT, random: None, spec: sp },
+                    Plan { shape: Shape::History, groups: G_FAULT, random: Some((hc, ho)), spec: sph },
+                ],
+            })
+        }
+        "C14" => {
+            let mut sp = spec("C14", ops(&[OP_ITER, OP_DRAIN, OP_SPLICE]), MON_ITER, l);
+            sp.extra_calls = 3;
+            let mut sph = sp.clone();
+            sph.ops = ops(&[OP_ITER, OP_DRAIN, OP_SPLICE, OP_PUSH, OP_BULK_PUSH]);
+            Some(PropPlan {
+                rule: "case = (state, iterator kind {iter, iter_mut, &v/&mut v into_iter, typed iter/iter_mut/slice iter, cloned IterRef at every prefix, erased/typed drain and splice over every sub-range}, every next/next_back string of length n+3 (three calls past exhaustion)); oracle before every call: size_hint()==(r,Some(r)) and len()==r with r the model's remaining count; front items ascending, back items descending, None forever after exhaustion, clone and original advance independently; non-trivial = the string mixes both ends or continues past exhaustion; distinct = distinct (configuration, pick sequence)",
+                bound: format!("exhaustive for len<={} (all 2^(n+3) strings); proptest {} histories x <= {} ops on larger vectors", l, hc, ho),
+                plans: vec![
+                    Plan { shape: Shape::Step, groups: G_CORE | G_STACK | G_CONSTRAINT, random: None, spec: sp },
+                    Plan { shape: Shape::History, groups: G_LAYOUT | G_BACKEND, random: Some((hc, ho)), spec: sph },
+                ],
+            })
+        }
         "C08" => Some(PropPlan {
             rule: "case = (source state incl. full fixed-capacity vectors, clone | clone_empty | clone_empty_in(every target backend flavour), one follow-up C01 operation on the original or on the clone); oracle: same type/layout/len, payloads equal, ids fresh, each source element cloned exactly once, storage separate, the other vector unchanged by the follow-up; non-trivial = len>=1, or backends differ, or fixed-capacity backend; distinct = distinct (configuration, pick sequence)",
             bound: format!("exhaustive for len<={} on every Cloneable configuration; proptest {} histories x <= {} ops", l, hc, ho),
